@@ -429,6 +429,50 @@ fn semi_frontier(repo: &Path) -> Result<String, String> {
     ))
 }
 
+/// C06: the shard of a staged row is a function of its KEY columns only
+/// (`hash_code` in core-relations/src/table/mod.rs hashes `row[0..n_keys]` and nothing else, and
+/// the shard id is derived from that hash alone).
+fn shard_hash(repo: &Path) -> Result<String, String> {
+    use quote::ToTokens;
+    let src = std::fs::read_to_string(repo.join("core-relations/src/table/mod.rs")).map_err(|e| e.to_string())?;
+    let file = syn::parse_file(&src).map_err(|e| e.to_string())?;
+    let body = find_fn(&file, "hash_code").ok_or("fn hash_code not found")?;
+    struct V {
+        loops: Vec<String>,
+        writes: Vec<String>,
+        shard_args: Vec<String>,
+    }
+    impl<'ast> Visit<'ast> for V {
+        fn visit_expr_for_loop(&mut self, fl: &'ast syn::ExprForLoop) {
+            self.loops.push(fl.expr.to_token_stream().to_string().replace(' ', ""));
+            syn::visit::visit_expr_for_loop(self, fl);
+        }
+        fn visit_expr_method_call(&mut self, c: &'ast syn::ExprMethodCall) {
+            let m = c.method.to_string();
+            if m.starts_with("write") {
+                self.writes.push(c.args.to_token_stream().to_string().replace(' ', ""));
+            }
+            if m == "shard_id" {
+                self.shard_args.push(c.args.to_token_stream().to_string().replace(' ', ""));
+            }
+            syn::visit::visit_expr_method_call(self, c);
+        }
+    }
+    let mut v = V { loops: vec![], writes: vec![], shard_args: vec![] };
+    v.visit_block(&body);
+    let by_key = v.loops == vec!["&row[0..n_keys]".to_string()]
+        && v.writes == vec!["val.index()".to_string()]
+        && v.shard_args == vec!["full_code".to_string()];
+    Ok(format!(
+        "(* core-relations/src/table/mod.rs hash_code: loops {:?}, hasher writes {:?}, shard_id args {:?} *)\nInductive shard_input := ShardByKey | ShardOther.\nDefinition shard_hash_input : shard_input := {}.\n",
+        v.loops,
+        v.writes,
+        v.shard_args,
+        if by_key { "ShardByKey" } else { "ShardOther" }
+    )
+    .replace("*)\nInductive", "*)\nInductive"))
+}
+
 /// C20: inventory of hash-container aliases (with their hashers) and of files that use the
 /// randomly seeded `std::collections::Hash{Map,Set}` / `RandomState` in non-test code.
 fn hash_inventory(repo: &Path) -> Result<String, String> {
@@ -613,6 +657,17 @@ pub fn generate(repo: &Path) -> (String, Vec<String>) {
         Err(e) => {
             out.push_str(&format!("(* collision_sites FAILED: {} *)\n", e.replace("*)", "* )")));
             rep.push(format!("{{\"item\":\"Facts.collision_sites\",\"file\":\"core-relations/src/table/mod.rs\",\"ok\":false,\"error\":{:?}}}", e));
+        }
+    }
+    match shard_hash(repo) {
+        Ok(t) => {
+            out.push_str("\n");
+            out.push_str(&t);
+            rep.push("{\"item\":\"Facts.shard_hash\",\"file\":\"core-relations/src/table/mod.rs\",\"ok\":true}".to_string());
+        }
+        Err(e) => {
+            out.push_str(&format!("(* shard_hash FAILED: {} *)\n", e.replace("*)", "* )")));
+            rep.push(format!("{{\"item\":\"Facts.shard_hash\",\"file\":\"core-relations/src/table/mod.rs\",\"ok\":false,\"error\":{:?}}}", e));
         }
     }
     match semi_frontier(repo) {
